@@ -124,6 +124,44 @@ pub fn check(c: &IdxCase) -> Verdict {
             bail!("C03:archive-index:find_all_key_matches-finds-key-never-inserted", "{cfg}: probe {}", hex(k));
         }
     }
+    // probes of another length than the index's keys are never "a key that was inserted": proper
+    // prefixes (e.g. the 9-byte truncation local .idx files use) and extensions of present keys —
+    // of every chunk's first and last key, and of a sample of the others
+    let rpc0 = records_per_chunk(c.key_size, c.offset_bytes).max(1);
+    let mut other_len = 0usize;
+    for (i, k) in model.keys().enumerate() {
+        let edge = i % rpc0 == 0 || i % rpc0 == rpc0 - 1 || i + 1 == n;
+        if !edge && (i as u64).wrapping_mul(0x9E37_79B9).wrapping_add(c.seed) % 16 != 0 {
+            continue;
+        }
+        let mut alts: Vec<Vec<u8>> = Vec::new();
+        for cut in [k.len().saturating_sub(1), 9, k.len() / 2, 1] {
+            if cut >= 1 && cut < k.len() {
+                alts.push(k[..cut].to_vec());
+            }
+        }
+        for fill in [0u8, 0xff] {
+            let mut e = k.clone();
+            e.push(fill);
+            alts.push(e.clone());
+            if e.len() < 16 {
+                e.resize(16, fill);
+                alts.push(e);
+            }
+        }
+        for a in alts {
+            other_len += 1;
+            if let Some(e) = parsed.find_entry(&a) {
+                bail!("C03:archive-index:find_entry-finds-probe-of-another-length", "{cfg}: probe {} ({} bytes, made from present key {}) -> entry {}", hex(&a), a.len(), hex(k), hex(&e.encoding_key));
+            }
+            if let Some(e) = parsed.binary_search_key(&a) {
+                bail!("C03:archive-index:binary_search_key-finds-probe-of-another-length", "{cfg}: probe {} ({} bytes, made from present key {}) -> entry {}", hex(&a), a.len(), hex(k), hex(&e.encoding_key));
+            }
+            if !parsed.find_all_entries(&a).is_empty() {
+                bail!("C03:archive-index:find_all_entries-finds-probe-of-another-length", "{cfg}: probe {} ({} bytes, made from present key {})", hex(&a), a.len(), hex(k));
+            }
+        }
+    }
     // ChunkedArchiveIndex (fixed 16/4/4 layout) over the same bytes
     let mut did_chunked = false;
     // (needs a real file; a machine without a writable temp dir skips this flavour, counted)
@@ -161,6 +199,7 @@ pub fn check(c: &IdxCase) -> Verdict {
     let chunks = n.div_ceil(rpc);
     Verdict::pass()
         .nontrivial(chunks >= 2 && pr.neighbours >= 1)
+        .class_if(other_len >= 1, "probes-of-another-length")
         .class_if(chunks >= 2, "chunks>=2")
         .class_if(chunks >= 3, "chunks>=3")
         .class_if(n > 0 && n % rpc == 0, "exact-chunk-multiple")
